@@ -225,4 +225,165 @@ theorem ffc_candOf_spec {c : Converter Rat} {value : Rat} {unit : Unit Rat} {e :
     · cases h
   · cases h
 
+/-! ### what `fit_fraction` leaves: the selected number in the selected unit, named by its symbol -/
+
+/-- the first number a value states: the number, or the start of a range -/
+def Value.leadNumber : Value Rat → Option (Number Rat)
+  | .number n => some n
+  | .range s _ => some s
+  | .text _ => none
+
+theorem ffc_apply {c : Converter Rat} {q q' : SQuantity Rat} {unit : Unit Rat} {sel : Number Rat × Unit Rat}
+    {b : Bool} (h : fitFractionApply c q unit sel = (q', .ok b)) :
+    b = true ∧ q'.unit = sel.2.symbol? ∧ q'.unit.isSome = true ∧ q'.value.leadNumber = some sel.1 := by
+  unfold fitFractionApply at h
+  split at h
+  · cases h
+  · rename_i sym hs
+    split at h
+    · simp only [Prod.mk.injEq, Except.ok.injEq] at h
+      obtain ⟨rfl, rfl⟩ := h
+      exact ⟨rfl, hs.symm, rfl, rfl⟩
+    · split at h
+      · cases h
+      · simp only [Prod.mk.injEq, Except.ok.injEq] at h
+        obtain ⟨rfl, rfl⟩ := h
+        exact ⟨rfl, hs.symm, rfl, rfl⟩
+    · cases h
+
+/-- **The choice of `fit_fraction` with a target system.**  `cands` — the candidates — are, in the order of the
+    system's best list of the unit's quantity, the units with fractions enabled in which the value (the number, or the
+    start of the range) is approximated by `new_approx` under that unit's configuration.  If there is none the quantity
+    is untouched and the answer is `false`.  Otherwise the answer is `true`, and the selected candidate `sel` is the
+    FIRST one minimal in the lexicographic order of `(den, whole, |err|)` (`keyLt`); the quantity then carries
+    `sel`'s number as its (leading) number and the unit text is `sel`'s unit's symbol. -/
+theorem ffc_fitFractionWith {c : Converter Rat} (hc : c.Sound) (q : SQuantity Rat) (unit : Unit Rat)
+    (system : System) (v : Rat) (hv : q.value.parts.head? = some v) (hu : unit ∈ c.allUnits) :
+    (((c.best unit.pq).conversions system).entries.filterMap (fracCandOf c v unit) = [] ∧
+      fitFractionWith c q unit system v = (q, .ok false)) ∨
+    ∃ pre sel post q', ((c.best unit.pq).conversions system).entries.filterMap (fracCandOf c v unit)
+        = pre ++ sel :: post ∧
+      (∀ y ∈ pre, keyLt (fracKey sel.1) (fracKey y.1)) ∧ (∀ y ∈ post, ¬ keyLt (fracKey y.1) (fracKey sel.1)) ∧
+      fitFractionWith c q unit system v = (q', .ok true) ∧
+      q'.unit = sel.2.symbol? ∧ q'.value.leadNumber = some sel.1 := by
+  have hq : ∀ e ∈ ((c.best unit.pq).conversions system).entries, e.2.pq = unit.pq :=
+    fun e he => (hc.best_mem _ _ _ (List.mem_map.mpr ⟨e, he, rfl⟩)).2
+  obtain ⟨cands, hcands⟩ := fracCandidates_ok c v unit _ hq
+  have heq := ffc_candidates c v unit _ _ hcands
+  unfold fitFractionWith
+  rw [hcands, ← heq]
+  simp only
+  cases hm : minByKey cands with
+  | none => exact Or.inl ⟨minByKey_none hm, rfl⟩
+  | some sel =>
+    right
+    simp only
+    obtain ⟨pre, post, hl, hpre, hpost⟩ := ffc_minByKey hm
+    have hs := fracCandidates_spec c v unit _ _ hcands sel (minByKey_mem hm)
+    have hb := hc.best_mem _ _ _ hs.1
+    obtain ⟨q', hq', _, _, _⟩ := fitFractionApply_spec c q unit sel v hs.2 hv
+      (hc.ratio_ne _ hb.1) (hc.id_inj _ _ hu hb.1) (hc.symbol _ hb.1) hb.2.symm
+    obtain ⟨_, h2, _, h4⟩ := ffc_apply hq'
+    exact ⟨pre, sel, post, q', hl, hpre, hpost, hq', h2, h4⟩
+
+/-! ### the unit text after a conversion or a fit -/
+
+theorem ffc_dropBool_fst (r : SQuantity Rat × Except ConvErr Bool) : (dropBool r).1 = r.1 := by
+  obtain ⟨q, e⟩ := r
+  cases e <;> rfl
+
+/-- `fit_fraction` either keeps the unit text or writes the symbol of a unit of the converter -/
+theorem ffc_fitFraction_unit {c : Converter Rat} (hc : c.Sound) (q : SQuantity Rat) (unit : Unit Rat)
+    (target : Option System) :
+    (fitFraction c q unit target).1.unit = q.unit ∨
+    ∃ nu ∈ c.allUnits, (fitFraction c q unit target).1.unit = nu.symbol? := by
+  unfold fitFraction
+  cases target with
+  | none => exact Or.inl (tryFraction_unit c q)
+  | some system =>
+    simp only
+    have key : ∀ v, (fitFractionWith c q unit system v).1.unit = q.unit ∨
+        ∃ nu ∈ c.allUnits, (fitFractionWith c q unit system v).1.unit = nu.symbol? := by
+      intro v
+      unfold fitFractionWith
+      cases hcands : fracCandidates c v unit ((c.best unit.pq).conversions system).entries with
+      | error e => exact Or.inl rfl
+      | ok cands =>
+        simp only
+        cases hm : minByKey cands with
+        | none => exact Or.inl rfl
+        | some sel =>
+          simp only
+          have hs := fracCandidates_spec c v unit _ _ hcands sel (minByKey_mem hm)
+          have hb := hc.best_mem _ _ _ hs.1
+          cases hr : fitFractionApply c q unit sel with
+          | mk q' res =>
+            cases res with
+            | ok b => exact Or.inr ⟨sel.2, hb.1, (ffc_apply hr).2.1⟩
+            | error e =>
+              left
+              unfold fitFractionApply at hr
+              repeat' split at hr
+              all_goals (
+                simp only [Prod.mk.injEq] at hr
+                obtain ⟨h1, h2⟩ := hr
+                cases h2 <;> rw [← h1])
+    cases q.value with
+    | text t => exact Or.inl rfl
+    | number n => exact key _
+    | range s e => exact key _
+
+/-- **The unit text after a successful conversion is `new_unit.symbol()`**: the first symbol of the unit the quantity
+    is now in — or, for a unit without symbols, its first name (`Unit.symbol?`) — and that text resolves to that unit. -/
+theorem ffc_convertImpl_unit_text {c : Converter Rat} (hc : c.Sound) (q q' : SQuantity Rat) (to : ConvertTo Rat)
+    (hto : ∀ x, to = .unit (.unit x) → x ∈ c.allUnits) (h : convertImpl c q to = (q', .ok ())) :
+    ∃ nu, nu ∈ c.allUnits ∧ unitInfo c q' = some nu ∧ q'.unit = nu.symbol? := by
+  have key : ∃ nu ∈ c.allUnits, q'.unit = nu.symbol? := by
+    unfold convertImpl at h
+    split at h
+    · cases h
+    · rename_i utext hqu
+      split at h
+      · cases h
+      · rename_i u hf
+        split at h
+        · cases h
+        · rename_i value hval
+          split at h
+          · cases h
+          · rename_i r hconv
+            have hs := convert_spec hc (findUnit_mem hf) hto (show c.convert value (.unit u) to = .ok (r.1, r.2) from hconv)
+            split at h
+            · cases h
+            · rename_i sym hsym
+              have fin : ∀ tgt, (fitFraction c ⟨r.1.toValue, some sym⟩ r.2 tgt).1 = q' →
+                  ∃ nu ∈ c.allUnits, q'.unit = nu.symbol? := by
+                intro tgt hq'
+                rcases ffc_fitFraction_unit hc ⟨r.1.toValue, some sym⟩ r.2 tgt with h1 | ⟨nu, hnu, h1⟩
+                · exact ⟨r.2, hs.1, by rw [← hq', h1, hsym]⟩
+                · exact ⟨nu, hnu, by rw [← hq', h1]⟩
+              split at h
+              · simp only [Prod.mk.injEq, and_true] at h
+                exact ⟨r.2, hs.1, by rw [← h, tryFraction_unit, hsym]⟩
+              · have := congrArg Prod.fst h
+                rw [ffc_dropBool_fst] at this
+                exact fin _ this
+              · have := congrArg Prod.fst h
+                rw [ffc_dropBool_fst] at this
+                exact fin _ this
+  obtain ⟨nu, hnu, htext⟩ := key
+  have hsome : q'.unit.isSome = true := by rw [htext]; exact hc.symbol nu hnu
+  exact ⟨nu, hnu, unitInfo_symbol hc hnu htext hsome, htext⟩
+
+/-- what `Unit::symbol` returns: the first symbol if there is one, else the first name, else the first alias -/
+theorem ffc_symbol_rule (u : Unit Rat) :
+    (∀ s rest, u.symbols = s :: rest → u.symbol? = some s) ∧
+    (∀ s rest, u.symbols = [] → u.names = s :: rest → u.symbol? = some s) ∧
+    (u.symbols = [] → u.names = [] → u.symbol? = u.aliases.head?) := by
+  unfold Unit.symbol?
+  refine ⟨?_, ?_, ?_⟩
+  · intro s rest h; simp [h]
+  · intro s rest h1 h2; simp [h1, h2]
+  · intro h1 h2; simp [h1, h2]
+
 end Cook
